@@ -475,7 +475,7 @@ def _run(spec, root):
     from compare_locales import mozpath
     strip = Strip(root)
     sem = Sem(spec)
-    out = {"lines": [], "impl": [], "violations": [], "stats": {}, "locales": []}
+    out = {"lines": [], "mlines": [], "impl": [], "violations": [], "stats": {}, "locales": []}
     penv = {k: v.replace("@R@", root) for k, v in spec["parser_env"].items()}
     projects = [TOMLParser().parse(os.path.join(root, spec["configs"][c]["file"]), env=dict(penv)) for c in spec["projects"]]
 
@@ -533,6 +533,8 @@ def _run(spec, root):
         out["locales"].append(loc)
         # ---- model input from the real objects
         out["lines"].append(model_line(projects, loc, mbase, universe, len(fsfiles), strip, REFERENCE_LOCALE))
+        # ---- the same case for the composed model (pattern TEXTS instead of match tables)
+        out["mlines"].append(model_line_m(projects, loc, mbase, universe, len(fsfiles), strip, root, REFERENCE_LOCALE))
         # ---- oracle
         if res is not None and not spec.get("mismatch"):
             uni = [strip(p) for p in universe]
@@ -651,3 +653,163 @@ def model_line(projects, loc, mbase, universe, nfiles, strip, REFERENCE_LOCALE):
     toks += ["T", str(len(T))] + ["%d %d %d" % e for e in T]
     toks += ["X", str(len(X))] + ["%d %d %d" % e for e in X]
     return " ".join(toks)
+
+
+# ---------------------------------------------------------------- the composed model: matchers as texts
+def pattern_text(pattern):
+    """source text of a parsed Pattern (inverse of PatternParser.parse; checked by `matcher_texts`)"""
+    from compare_locales.paths import matcher as MM
+    out = []
+    for n in pattern:
+        if isinstance(n, MM.AndroidLocale):
+            out.append("{android_locale}")
+        elif isinstance(n, MM.Variable):
+            out.append("{%s}" % n.name)
+        elif isinstance(n, MM.Starstar):
+            out.append("**" + n.suffix)
+        elif isinstance(n, MM.Star):
+            out.append("*")
+        else:
+            out.append(str(n))
+    return "".join(out)
+
+
+def matcher_texts(m):
+    """(root|None, pattern text, [(key, value text)]) of a real Matcher, or None if re-parsing the texts does not give the
+    same Matcher back (then the case is not sent to the composed model)"""
+    from compare_locales.paths.matcher import Matcher
+    text = pattern_text(m.pattern)
+    env = [(k, pattern_text(v)) for k, v in m.env.items()]
+    again = Matcher(text, dict(env))
+    if list(again.pattern) != list(m.pattern) or again.pattern.prefix_length != m.pattern.prefix_length:
+        return None
+    if list(again.env) != list(m.env) or any(list(again.env[k]) != list(m.env[k]) for k in m.env):
+        return None
+    return (m.pattern.root, text, env)
+
+
+def model_line_m(projects, loc, mbase, universe, nfiles, strip, root, REFERENCE_LOCALE):
+    """`pfm.run` line: same project structure and matcher numbering as `model_line`, but the matcher table carries the
+    pattern text, environment, root and the `with_env` binding of every matcher; the temp root is cut off all texts
+    exactly like it is cut off the results.  None if some matcher cannot be written as text."""
+    specs = []             # (root, text, env, with_env|None), index = mid
+    strs, sidx = [], {}
+
+    def S(p):
+        p = strip(p)
+        if p not in sidx:
+            sidx[p] = len(strs)
+            strs.append(p)
+        return sidx[p]
+
+    def cut(t):
+        return t.replace(root, "")
+
+    class Unwritable(Exception):
+        pass
+
+    def mid(m, with_env):
+        t = matcher_texts(m)
+        if t is None:
+            raise Unwritable()
+        r, text, env = t
+        specs.append((None if r is None else cut(r), cut(text), [(k, cut(v)) for k, v in env],
+                      None if with_env is None else [(k, cut(v)) for k, v in with_env.items()]))
+        return len(specs) - 1
+
+    cfgids = {}
+
+    def locs(ls):
+        if ls is None:
+            return "-"
+        return "L %d %s" % (len(ls), " ".join(enc(x) for x in ls)) if ls else "L 0"
+
+    def conf(pc):
+        cid = cfgids.setdefault(pc.path, len(cfgids))
+        toks = ["C", str(cid), locs(pc.locales), str(len(pc.paths))]
+        for paths in pc.paths:
+            l10n = mid(paths["l10n"], {"locale": loc or REFERENCE_LOCALE})
+            ref = mid(paths["reference"], None) if "reference" in paths else None
+            if mbase is not None and loc is not None:
+                merge = mid(paths["l10n"], {"locale": loc, "l10n_base": mbase})
+            else:
+                merge = l10n
+            test = "-" if "test" not in paths else "t:" + ",".join(str(TESTS.index(t)) for t in paths["test"])
+            toks += ["R", str(l10n), "-" if ref is None else str(ref), str(merge), test, locs(paths.get("locales"))]
+        toks.append(str(len(pc.children)))
+        for ch in pc.children:
+            toks += conf(ch)
+        toks.append(str(len(pc.excludes)))
+        for ch in pc.excludes:
+            toks += conf(ch)
+        return toks
+
+    ptoks = []
+    try:
+        for pc in projects:
+            ptoks += conf(pc)
+    except Unwritable:
+        return None
+    U = [S(p) for p in universe]
+    toks = ["pfm.run", "-" if loc is None else enc(loc), "1" if mbase is not None else "0", "P", str(len(projects))] + ptoks
+    toks += ["S", str(len(strs))] + [enc(s) for s in strs]
+    toks += ["U", str(len(U))] + [str(u) for u in U] + ["F", str(nfiles)]
+    toks += ["M", str(len(specs))]
+    for r, text, env, w in specs:
+        toks += ["-" if r is None else enc(r), enc(text), str(len(env))]
+        for k, v in env:
+            toks += [enc(k), enc(v)]
+        if w is None:
+            toks.append("-")
+        else:
+            toks.append(str(len(w)))
+            for k, v in w:
+                toks += [enc(k), enc(v)]
+    return " ".join(toks)
+
+
+# ---------------------------------------------------------------- probes at the excluded points of the C13M theorems
+# name -> (TOML of the single config, files, what the Lean negation witness says the code does there)
+PROBES = {
+    # outside the `sub` pattern class (C13M.sub_class_witness): the reference file maps to a path its own l10n pattern rejects
+    "sub-class": ('basepath = "."\nlocales = ["de"]\n[[paths]]\n    reference = "r/**"\n    l10n = "l/*"\n',
+                  ["/r/a/b.ftl", "/l/a/b.ftl"]),
+    # a wildcard-free pattern with an unbound variable (C13M.literal_unbound_witness): it matches more than its prefix
+    "literal-unbound": ('basepath = "."\nlocales = ["de"]\n[[paths]]\n    l10n = "l/x{v}"\n',
+                        ["/l/x", "/l/xy"]),
+}
+
+
+def run_probe(name):
+    """real ProjectFiles and the `pfm.run` line on a hand-written project at an excluded point of the C13M theorems"""
+    from compare_locales.paths import TOMLParser, ProjectFiles
+    from compare_locales.paths.files import REFERENCE_LOCALE
+    from compare_locales import mozpath
+    toml, files = PROBES[name]
+    os.makedirs(SCRATCH, exist_ok=True)
+    root = os.path.realpath(tempfile.mkdtemp(prefix="probe-", dir=SCRATCH))
+    try:
+        with open(os.path.join(root, "l10n.toml"), "w") as f:
+            f.write(toml)
+        for rel in files:
+            os.makedirs(os.path.dirname(root + rel), exist_ok=True)
+            with open(root + rel, "w") as f:
+                f.write("k = v\n")
+        strip = Strip(root)
+        projects = [TOMLParser().parse(os.path.join(root, "l10n.toml"), env={})]
+        fsfiles = []
+        for d, dirs, fs in os.walk(root):
+            for f in fs:
+                fsfiles.append(mozpath.join(d, f))
+        pf = ProjectFiles("de", projects)
+        items = [[strip(a), strip(b), strip(c), sorted(t)] for a, b, c, t in pf]
+        looks = {}
+        for p in fsfiles:
+            m = pf.match(p)
+            looks[strip(p)] = None if m is None else [strip(m[0]), strip(m[1]), strip(m[2]), sorted(m[3])]
+        canon = "ok|" + ";".join(fmt_item(i) for i in items) + "|" + ";".join(
+            "None" if looks[strip(p)] is None else fmt_item(looks[strip(p)]) for p in fsfiles)
+        line = model_line_m(projects, "de", None, fsfiles, len(fsfiles), strip, root, REFERENCE_LOCALE)
+        return {"impl": canon, "mline": line, "paths": [i[0] for i in items], "looks": looks}
+    finally:
+        shutil.rmtree(root, ignore_errors=True)
